@@ -303,12 +303,12 @@ impl Monitor for C05 {
         let np = c05_pins().len() as u64;
         let mut v = split_chunks("pin", 0, np, np, 1);
         let (nd, nc) = match tier {
-            Tier::Quick => (2_400, 800),
+            Tier::Quick => (6_000, 2_000),
             Tier::Thorough => (30_000, 8_000),
         };
         v.extend(split_chunks("det", seed_offset(seed, "C05d", 30_000), nd, 30_000, 50));
-        for k in ["rand", "stress", "hw"] {
-            v.extend(split_chunks(k, seed_offset(seed, &format!("C05{}", k), pool_len(k)), nc / 3, pool_len(k), 50));
+        for k in ["rand", "stress", "hw", "wild"] {
+            v.extend(split_chunks(k, seed_offset(seed, &format!("C05{}", k), pool_len(k)), nc / 4, pool_len(k), 50));
         }
         v
     }
